@@ -564,9 +564,9 @@ Definition cap_rel (s : cap) (w : wr) : Prop :=
 Lemma cap_rel_step s w e : final_code e = true -> cap_rel s w -> cap_rel (cap_step s e) (wr_step w e).
 Proof.
   intros Hf [Hb [[Hs Hw]|[Hs Hw]]].
-  - unfold cap_rel. destruct e as [c|n|]; simpl in *; rewrite Hs, Hw; simpl;
+  - unfold cap_rel. destruct e; simpl in *; rewrite Hs, Hw; simpl;
       (split; [try rewrite Hb; reflexivity|right; split; auto]).
-  - unfold cap_rel. destruct e as [c|n|]; simpl in *; rewrite Hs, Hw; simpl;
+  - unfold cap_rel. destruct e; simpl in *; rewrite Hs, Hw; simpl;
       (split; [try rewrite Hb; reflexivity|right; split; auto]).
 Qed.
 
@@ -593,3 +593,78 @@ Qed.
 Lemma thm_capture_status_closed_form (h : list wevent) :
   forallb final_code h = true -> reported_status (capture h) = first_commit h.
 Proof. intro Hf. rewrite <- sent_status. exact (proj1 (thm_capture_reports_written h Hf)). Qed.
+
+(* ---------------- middleware stacks ---------------- *)
+
+Lemma thm_stack_transparent k l1 l2 s :
+  run_stack k (l1 ++ LTransparent :: l2) s = run_stack k (l1 ++ l2) s.
+Proof. unfold run_stack. rewrite !fold_left_app. reflexivity. Qed.
+
+Definition rid_fresh_ok (l : layer) : Prop := match l with LRid _ fresh => fresh <> [] | _ => True end.
+
+Lemma layer_step_keeps_rid k s l id :
+  rid_fresh_ok l -> s_rid s = Some id -> id <> [] ->
+  exists id', s_rid (layer_step k s l) = Some id' /\ id' <> [].
+Proof.
+  intros Hok Hs Hne. destruct l as [xs fresh|xs q|]; unfold layer_step.
+  - destruct (rid_step k (rid_options xs) (s_md s) (s_rid s) fresh) as [id' md] eqn:E. cbn [s_rid].
+    exists id'. split; [reflexivity|].
+    pose proof (rid_step_nonempty k (rid_options xs) (s_md s) (s_rid s) fresh Hok) as H. now rewrite E in H.
+  - exists id. auto.
+  - exists id. auto.
+Qed.
+
+Lemma run_stack_keeps_rid k ls : forall s id,
+  Forall rid_fresh_ok ls -> s_rid s = Some id -> id <> [] ->
+  exists id', s_rid (run_stack k ls s) = Some id' /\ id' <> [].
+Proof.
+  induction ls as [|l r IH]; intros s id Hok Hs Hne; simpl; [eauto|].
+  inversion Hok as [|? ? H1 H2]; subst.
+  destruct (layer_step_keeps_rid k s l id H1 Hs Hne) as (id' & Hs' & Hne').
+  exact (IH _ id' H2 Hs' Hne').
+Qed.
+
+Lemma thm_stack_request_id_survives k l1 xs fresh l2 s :
+  Forall rid_fresh_ok (l1 ++ LRid xs fresh :: l2) ->
+  exists id, s_rid (run_stack k (l1 ++ LRid xs fresh :: l2) s) = Some id /\ id <> [].
+Proof.
+  intro Hok. apply Forall_app in Hok as [_ Hok]. inversion Hok as [|? ? H1 H2]; subst.
+  unfold run_stack. rewrite fold_left_app. cbn [fold_left].
+  set (s1 := fold_left (layer_step k) l1 s).
+  assert (H : exists id, s_rid (layer_step k s1 (LRid xs fresh)) = Some id /\ id <> []).
+  { unfold layer_step. destruct (rid_step k (rid_options xs) (s_md s1) (s_rid s1) fresh) as [id md] eqn:E. cbn [s_rid].
+    exists id. split; [reflexivity|].
+    pose proof (rid_step_nonempty k (rid_options xs) (s_md s1) (s_rid s1) fresh H1) as H. now rewrite E in H. }
+  destruct H as (id & Hs & Hne). exact (run_stack_keeps_rid k l2 _ id H2 Hs Hne).
+Qed.
+
+Lemma layer_step_keeps_tctx k s l : is_trace_layer l = false -> s_tctx (layer_step k s l) = s_tctx s.
+Proof.
+  destruct l as [xs fresh|xs q|]; intro H; try discriminate; unfold layer_step; [|reflexivity].
+  destruct (rid_step k (rid_options xs) (s_md s) (s_rid s) fresh). reflexivity.
+Qed.
+
+Lemma run_stack_keeps_tctx k ls : forall s,
+  forallb (fun l => negb (is_trace_layer l)) ls = true -> s_tctx (run_stack k ls s) = s_tctx s.
+Proof.
+  induction ls as [|l r IH]; intros s H; simpl; [reflexivity|].
+  simpl in H. apply andb_prop in H as [H1 H2]. rewrite (IH _ H2).
+  apply layer_step_keeps_tctx. now destruct (is_trace_layer l).
+Qed.
+
+Lemma thm_stack_trace_survives k l1 xs q l2 s t :
+  first_value (q_trace q) = t -> t <> [] ->
+  forallb (fun l => negb (is_trace_layer l)) l2 = true ->
+  let c := s_tctx (run_stack k (l1 ++ LTrace xs q :: l2) s) in
+  c_trace c = Some t /\ c_span c = Some (q_newspan q) /\
+  client_forward c ([], []) = Some ([t], [q_newspan q]).
+Proof.
+  intros Ht Hne Hl2. cbv zeta.
+  assert (E : run_stack k (l1 ++ LTrace xs q :: l2) s =
+              run_stack k l2 (layer_step k (run_stack k l1 s) (LTrace xs q))).
+  { unfold run_stack. rewrite fold_left_app. reflexivity. }
+  rewrite E, (run_stack_keeps_tctx k l2 _ Hl2).
+  set (s1 := run_stack k l1 s). cbn [layer_step s_tctx].
+  rewrite (trace_step_inbound k _ _ (set_base q (s_tctx s1)) t Ht Hne). cbn [fst r_ctx].
+  repeat split.
+Qed.
